@@ -6755,7 +6755,8 @@ fn write_yaml_child_inline<W: AsRef<[u64]>, Out: core::fmt::Write>(
     unit: char,
     sort_keys: bool,
 ) -> core::fmt::Result {
-    if let Some(anchor) = value.anchor() {
+    let anchor = value.anchor();
+    if let Some(anchor) = anchor {
         out.write_char('&')?;
         out.write_str(anchor)?;
         out.write_char(' ')?;
@@ -6798,8 +6799,27 @@ fn write_yaml_child_inline<W: AsRef<[u64]>, Out: core::fmt::Write>(
     // difference (#1115's own survey found every other empty-string
     // position -- block value, flow/block sequence item, flow mapping key
     // -- already matches real yq's `""`), just this one synthesized case.
+    //
+    // That `''` has to read back as what the absent value is, though, and
+    // an absent value is null -- `{a: , b: 1}` is `{"a": null, "b": 1}` to
+    // `-o json` and to the DOM route, which writes `null` here -- so a
+    // quoted scalar, a string, reads back as a different document. Only a
+    // core-schema tag makes the two agree: it resolves `''` exactly as it
+    // resolves nothing at all (`!!str` -> `""` either way). Without one (no
+    // tag, or a `!custom` one `resolve_tagged` leaves to plain resolution)
+    // `null` is written instead, a deliberate correctness-over-byte-match
+    // call.
+    //
+    // Known gap: an *anchored* absent value is left as real yq has it
+    // (`{a: &anc, b: 1}` -> `{a: &anc '', b: 1}`, which is what
+    // `test_flow_anchor_empty_value_uses_single_quotes_1115` pins), although
+    // the same reasoning applies to it and the DOM route writes `&anc null`.
     if absent {
-        return out.write_str("''");
+        let keep_quotes = anchor.is_some()
+            || value
+                .explicit_tag()
+                .is_some_and(|tag| resolve_tagged("", tag).is_some());
+        return out.write_str(if keep_quotes { "''" } else { "null" });
     }
     value.stream_yaml_value(out, "", 0, unit, sort_keys, false)
 }
@@ -8350,6 +8370,35 @@ mod tests {
             .stream_yaml_document(&mut out, IndentSpec::spaces(2), false)
             .unwrap();
         assert_eq!(out, "a: []\nb: {}");
+    }
+
+    #[test]
+    fn test_stream_yaml_absent_flow_value_reads_back_as_what_it_is() {
+        // A flow value with nothing written for it is null, so it is
+        // written as `null`: the `''` real yq puts there reads back as the
+        // empty string. Only a core-schema tag makes the absent value
+        // something a quoted `''` also is (`!!str` -> ""); a tag left to
+        // plain resolution (`!custom`) does not.
+        for (yaml, expected) in [
+            ("{a: , b: 1}\n", "{a: null, b: 1}"),
+            ("{a: }\n", "{a: null}"),
+            ("[a: ]\n", "[{a: null}]"),
+            ("{? a : }\n", "{a: null}"),
+            (
+                "k: {a: [b: ], c: {d: }}\n",
+                "k: {a: [{b: null}], c: {d: null}}",
+            ),
+            ("{a: !custom , b: 1}\n", "{a: !custom null, b: 1}"),
+            ("{a: !!str , b: 1}\n", "{a: !!str '', b: 1}"),
+        ] {
+            let index = YamlIndex::build(yaml.as_bytes()).unwrap();
+            let mut out = String::new();
+            index
+                .root(yaml.as_bytes())
+                .stream_yaml_document(&mut out, IndentSpec::spaces(2), false)
+                .unwrap();
+            assert_eq!(out, expected, "input: {yaml:?}");
+        }
     }
 
     #[test]
